@@ -158,3 +158,34 @@ P("C18",
    U("c18.blocklist", "c18", "TestBlocklist", "Blocked(ip) == linear scan over the list in force after every reload", Q(30000, 4), T(4000000), min_nontrivial_frac=0.3),
    U("c18.addrlist", "c18", "TestAddrList", "addrlist push/pop/reset vs bounded-priority-set model", Q(20000, 4), T(2000000), min_nontrivial_frac=0.3),
   ])
+
+P("C15",
+  level_text="Bounded random exploration: torrents with generated identity (info-hash and peer id of arbitrary bytes incl. bytes that need escaping and zeros in the last four "
+             "positions, ports, 63-bit counters, every event) are announced through the real HTTP and UDP tracker clients to scripted trackers that decode the request with "
+             "their own code; every field must equal the torrent's, and the peer id must be the same 20 bytes the client presents to peers.",
+  level_note="Trusted: harness/strk (own HTTP request-line/percent decoder, own BEP 15 decoder). The 'key' parameter is recorded in evidence, not asserted. "
+             "The event-discipline and interval clauses are decided by the announcer unit when listed.",
+  technique="property-based testing (rapid): round trip through an independent decoder on the far side of a real socket",
+  rule="transport {http, udp} x identity bytes x counters x event x numwant x tracker URLs with and without a query; every case is non-trivial (distinct = distinct case)",
+  assumptions=["loopback UDP/TCP deliver datagrams/streams unmodified"],
+  units=[
+   U("c15.wire", "c15", "TestAnnounceWire", "announce fields on the wire == torrent identity and counters, both transports", Q(2000, 4), T(200000)),
+  ])
+
+P("C16",
+  level_text="Bounded random exploration: (a) tiers of 1..5 stub trackers under generated success/failure histories up to 200 announces, including batches of concurrent "
+             "announces whose interleaving the harness owns (all reach the tracker before any outcome is released), against a model: same member after success, next member "
+             "cyclically after failure, exactly one step per failed batch; (b) generated HTTP replies (hostile bencode, compact and dictionary peers, oversize bodies, chunked / "
+             "unframed bodies, error statuses) and (c) generated UDP datagram sequences (duplicates, foreign transaction ids carrying recognisable content, short packets, "
+             "error actions with hostile payloads, wrong actions) against the real clients: error or well-formed peers, no panic, bounded allocation, socket reads bounded by the "
+             "response limit, nothing from a foreign transaction ever returned.",
+  level_note="Trusted: harness/strk and the tier model. 'For ever' is explored as every prefix up to 200 announces (several full cycles). The retry-after-abort clause over "
+             "the shared UDP connection is decided by the announcer unit when listed. Allocation is metered with runtime.MemStats.TotalAlloc.",
+  technique="property-based testing (rapid): model-based stateful testing (tier) + hostile-input generation with validity/allocation oracles (replies)",
+  rule="(a) non-trivial = >=2 members and >=1 full wrap-around; (b),(c) every generated reply script is non-trivial; distinct = distinct case",
+  assumptions=["the harness serialises concurrent announces at the stub tracker, so the only nondeterminism left is inside Tier itself"],
+  units=[
+   U("c16.tier", "c16", "TestTier", "tier member sequence == cyclic failover model, incl. concurrent announces", Q(20000, 4), T(2000000), min_nontrivial_frac=0.3),
+   U("c16.httpreply", "c16", "TestHTTPReply", "HTTP reply bytes -> error or well-formed peers; bounded alloc and socket reads", Q(1600, 8), T(100000), env={"VERIF_JOURNAL": "1"}),
+   U("c16.udpreply", "c16", "TestUDPReply", "UDP datagram sequences -> error or well-formed peers of the right transaction", Q(320, 8), T(20000), env={"VERIF_JOURNAL": "1"}),
+  ])
